@@ -879,15 +879,28 @@ class C11(core.Check):
 
 
 C11.level_text = (
-    "Proved in Coq for every text, offsets and column, no size bound, for EVERY width function with wcwidth(c) <= 2 "
-    "(see Properties/C11.v for the exact list): str: calc_width additive; calc_text_pos/calc_string_text_pos result is in range, "
-    "has the stated column, is <= the requested column and maximal; calc_trim_text total width = requested range, each pad flag "
-    "<=> a double-width character straddles that edge; move_next/move_prev inverse.  UTF-8 bytes: decode_one inverts the encoder "
-    "for every code point (symbolic proof over the translated arithmetic), calc_width / calc_text_pos / move_next / move_prev on the "
-    "encoded text agree with the str functions through the boundary map.  Double-byte: calc_text_pos never returns the second half "
-    "of a double-byte character (all byte strings).  rle_subseg / rle_len / append / join length laws; apply_target_encoding: run "
-    "lengths sum to the output length for every byte string, each DEC character maps to its alternate byte under a '0' run.  "
-    "PARTIAL / correspondence-and-oracle only: items named _partial or listed as Definition ..._full in Properties/C11.v."
+    "Proved in Coq, for every text, offset range and column with no size bound, and for EVERY width function with "
+    "wcwidth(c) <= 2 (the dumped table of the installed wcwidth is proved to satisfy this): "
+    "str: calc_width additive and within 0..2 per character; calc_text_pos result is inside the range, its column is the width of "
+    "the text before it, is not beyond the requested column, and is the FIRST position whose character does not fit; "
+    "move_next/move_prev inverse; is_wide_char; calc_trim_text (translated from util.py every run): total width exactly the "
+    "requested range, slice starts at the requested column, each pad flag <=> a character straddles that edge.  "
+    "UTF-8 bytes: the translated decode_one arithmetic inverts the encoder for every code point in any context (symbolic proof), "
+    "CPython's strict decoder accepts encoded text, and calc_width / calc_text_pos / calc_trim_text / is_wide_char / move_next / "
+    "move_prev on the encoded text return the images of the str results under the boundary map (so results are character "
+    "boundaries); trim_text_attr_cs returns text/attr/charset runs of one length.  "
+    "Double-byte: for ARBITRARY bytes calc_text_pos never returns a second half and is at most one column short (then on a "
+    "first half); on well-formed double-byte text (single bytes < 0x80, pairs lead 0x81-0xFF / trail 0x40-0x7E or 0x80-0xFF) "
+    "within_double_byte is exact, move_next/move_prev are inverse, is_wide_char is exact and calc_trim_text returns exactly the "
+    "requested width with each pad flag <=> that edge falls on a second half.  Single-byte: calc_text_pos and calc_trim_text "
+    "closed forms.  rle_subseg / rle_len / append / prepend / join / rle_product length laws.  apply_target_encoding: charset "
+    "run lengths sum to the encoded length for every input and codec; for every string without raw SO/SI and every codec that "
+    "leaves ASCII alone, each DEC character maps to its alternate byte (translated tables) and exactly the DEC positions carry "
+    "the '0' charset.  "
+    "NOT proved (stated as Definition trim_text_attr_cs_lengths_full in Properties/C11.v; decided by the exact "
+    "model-vs-implementation correspondence and the oracle only): trim_text_attr_cs lengths for arbitrary bytes in every mode "
+    "(proved for the UTF-8 encoding of a text and whenever calc_trim_text returns an in-range slice); nothing is proved about "
+    "invalid UTF-8 input or about Python's own CJK codecs (only urwid's byte-range logic is modelled)."
 )
 C11.level_note = (
     "Trusted: Coq kernel, py2v (+ the subclasses in mods/str_util.py), the wcwidth dump, extraction + OCaml driver, the hand-written "
